@@ -107,6 +107,7 @@ type Machine struct {
 	RangeCover    map[*ssa.Range]int // largest map each range instruction was interpreted on
 	rangeSeen     map[string]bool
 	AltFilter     func(st *State, v Val) Val     // applied to the alternative a fork takes
+	SampleOrders  bool                           // range over a map too large to enumerate: fork three orders (see *ssa.Range)
 	ExtGlobals    map[string]Val                 // values of package-level variables outside the repository (io.EOF, ...)
 	NoExactConcat bool                           // tape mode: string concatenation keeps only emptiness
 	ReadFields    map[*types.Struct]map[int]bool // when set: struct fields never read by the interpreted code are ignored in state keys
@@ -1223,6 +1224,34 @@ func (m *Machine) step(st *State) (forks []*State) {
 				}
 				m.orderFree[x] = okOrder
 			}
+			if !okOrder && m.SampleOrders {
+				// three of the n! orders: outcomes that differ are a witness of order dependence, outcomes that
+				// agree prove nothing (the caller has to treat a single outcome with this note as undecided)
+				fwd, rev, mix := make([]int, n), make([]int, n), make([]int, 0, n)
+				for i := 0; i < n; i++ {
+					fwd[i], rev[i] = i, n-1-i
+				}
+				for i := 0; i < n; i += 2 {
+					mix = append(mix, i)
+				}
+				for i := 1; i < n; i += 2 {
+					mix = append(mix, i)
+				}
+				var forks []*State
+				for _, ord := range [][]int{rev, mix} {
+					o := st.Clone()
+					ofr := o.top()
+					ofr.Regs[x] = &MapIterV{Obj: mv.Obj, Order: ord}
+					ofr.PC++
+					o.Notes["map-order"] = true
+					o.Notes["map-order-sampled"] = true
+					forks = append(forks, o)
+				}
+				st.Notes["map-order"] = true
+				st.Notes["map-order-sampled"] = true
+				set(&MapIterV{Obj: mv.Obj, Order: fwd})
+				return forks
+			}
 			if !okOrder {
 				st.stuck("range over a map of %d entries (permutation bound)", n)
 				return nil
@@ -1493,6 +1522,20 @@ func (m *Machine) doCall(st *State, fr *Frame, x *ssa.Call) []*State {
 				}
 			}
 		}
+		if iv, isI := recv.(IfaceV); isI && !ownMethod {
+			// a typed nil pointer of a foreign type inside a non-nil interface (`return gzip.NewReader(r)` as an
+			// io.ReadCloser when it failed): the method is called with a nil receiver and, with the exception of
+			// *os.File, whose methods test for it, dereferences it
+			if _, nilPtr := iv.V.(nilV); nilPtr {
+				if pt, isPtr := iv.T.Underlying().(*types.Pointer); isPtr {
+					if n, isNamed := pt.Elem().(*types.Named); isNamed && n.Obj().Pkg() != nil && !strings.HasPrefix(n.Obj().Pkg().Path(), repoModule) && n.String() != "os.File" {
+						st.Status = stPanic
+						st.Msg = fmt.Sprintf("nil pointer dereference: method %s called on a nil *%s held in a non-nil interface at %s", cc.Method.Name(), n.String(), m.P.Pos(x.Pos()))
+						return nil
+					}
+				}
+			}
+		}
 		if m.InvokeHook != nil && !ownMethod {
 			alts, handled := m.InvokeHook(m, st, cc, recv, args)
 			if st.Status != stRun {
@@ -1719,9 +1762,23 @@ func (m *Machine) builtin(st *State, x *ssa.Call, name string, args []Val) (Val,
 		}
 		st.stuck("len of %T", args[0])
 		return nil, false
+	case "ssa:wrapnilchk":
+		// wrapper of a value-receiver method called through a pointer: the pointer must not be nil
+		if _, isNil := args[0].(nilV); isNil {
+			st.Status = stPanic
+			st.Msg = "value method called using nil pointer"
+			return nil, false
+		}
+		return args[0], true
 	case "cap":
 		if s, ok := args[0].(SliceV); ok && !s.Abs {
 			return int64(s.Cap), true
+		}
+		if _, isNil := args[0].(nilV); isNil {
+			return int64(0), true
+		}
+		if a, ok := args[0].(*ArrayV); ok {
+			return int64(len(a.E)), true
 		}
 		st.stuck("cap of %T", args[0])
 		return nil, false
